@@ -46,8 +46,8 @@ Proof.
 Qed.
 
 (** [restore_ok_implies_verified] *)
-Theorem restore_ok_implies_verified_thm : forall out_exists plan integ integ_ok img ops,
-  restore' out_exists plan integ integ_ok = (ROk img, ops) ->
+Theorem restore_ok_implies_verified_thm : forall out_exists plan integ integ_res cancelled img ops,
+  restore' out_exists plan integ integ_res cancelled = (ROk img, ops) ->
   out_exists = false /\
   exists fs bs, plan = Some fs /\ fs <> [] /\
     Forall (fun f => ltx_header_size <= p_size f) fs /\
@@ -55,9 +55,9 @@ Theorem restore_ok_implies_verified_thm : forall out_exists plan integ integ_ok 
     Forall (fun d => verified' d = true) bs /\
     chain_ok hdr_min hdr_max bs = true /\
     img = image bs /\
-    (integ = true -> integ_ok img = true).
+    (integ = true -> integ_res img = IOk).
 Proof.
-  intros out_exists plan integ integ_ok img ops. unfold restore.
+  intros out_exists plan integ integ_res cancelled img ops. unfold restore.
   destruct out_exists; [discriminate|].
   destruct plan as [fs|]; [|discriminate].
   destruct (negb (forallb (fun f => negb (p_size f <? ltx_header_size)) fs)) eqn:ES; [discriminate|].
@@ -70,7 +70,7 @@ Proof.
   destruct (negb (chain_ok hdr_min hdr_max bs)) eqn:EC; [discriminate|].
   destruct (negb (forallb verified' bs)) eqn:EV; [discriminate|].
   apply negb_false_iff in EC. apply negb_false_iff in EV.
-  destruct (integ && negb (integ_ok (image bs))) eqn:EI; [discriminate|].
+  destruct (integ && negb (ires_ok (integ_res (image bs)))) eqn:EI; [discriminate|].
   intros X. inversion X; subst img.
   split; [reflexivity|]. exists fs, bs.
   split; [reflexivity|]. split; [rewrite EF; congruence|]. split; [exact Hsz|].
@@ -78,18 +78,18 @@ Proof.
   { apply fetch_all_spec; [|exact EA]. eapply Forall_impl; [|exact Hsz]. unfold ltx_header_size. intros; simpl in *; lia. }
   split; [apply Forall_forall; intros d Hd; rewrite forallb_forall in EV; auto|].
   split; [exact EC|]. split; [reflexivity|].
-  intros ->. simpl in EI. apply negb_false_iff in EI. exact EI.
+  intros ->. simpl in EI. apply negb_false_iff in EI. destruct (integ_res (image bs)); [reflexivity|discriminate|discriminate].
 Qed.
 
 (** detection: a plan file whose stored bytes (with an honest listing size) do
     not pass the decoder's check, or which is missing, makes Restore fail *)
-Theorem restore_detects_thm : forall plan fs integ integ_ok f,
+Theorem restore_detects_thm : forall plan fs integ integ_res cancelled f,
   plan = Some fs -> In f fs ->
   (stored f = None \/ exists b', stored f = Some b' /\ p_size f = length b' /\ verified' b' = false) ->
-  exists e ops, restore' false plan integ integ_ok = (RErr e, ops).
+  exists e ops, restore' false plan integ integ_res cancelled = (RErr e, ops).
 Proof.
-  intros plan fs integ integ_ok f -> Hin Hbad.
-  destruct (restore' false (Some fs) integ integ_ok) as [[img|e] ops] eqn:ER; [|eauto].
+  intros plan fs integ integ_res cancelled f -> Hin Hbad.
+  destruct (restore' false (Some fs) integ integ_res cancelled) as [[img|e] ops] eqn:ER; [|eauto].
   exfalso. apply restore_ok_implies_verified_thm in ER.
   destruct ER as (_ & fs' & bs & X & _ & _ & F2 & V & _). inversion X; subst fs'.
   assert (G : exists d, fetched f d /\ verified' d = true).
@@ -115,13 +115,13 @@ Qed.
 
 (** [restore_corruption]: a single damaged plan file that the hash distinguishes
     from the original (hypothesis, per pair) cannot lead to a successful restore *)
-Theorem restore_corruption_thm : forall plan fs integ integ_ok f b b',
+Theorem restore_corruption_thm : forall plan fs integ integ_res cancelled f b b',
   plan = Some fs -> In f fs -> verified' b = true ->
   stored f = Some b' -> p_size f = length b' ->
   (cks b' = cks b /\ H (body b') <> H (body b)) \/ (body b' = body b /\ cks b' <> cks b) ->
-  exists e ops, restore' false plan integ integ_ok = (RErr e, ops).
+  exists e ops, restore' false plan integ integ_res cancelled = (RErr e, ops).
 Proof.
-  intros plan fs integ integ_ok f b b' Hp Hin V S Sz D.
+  intros plan fs integ integ_res cancelled f b b' Hp Hin V S Sz D.
   eapply restore_detects_thm; eauto. right. exists b'. repeat split; auto. eapply hash_detects; eauto.
 Qed.
 
@@ -129,11 +129,15 @@ Ltac disc_tac :=
   simpl; split; [reflexivity|];
   split; [intros X; simpl in X; intuition discriminate|];
   split; [intros E; try discriminate E; (split; [reflexivity|]; split; [eexists; reflexivity | reflexivity])|];
-  split; [intros E; try discriminate E; repeat split; reflexivity | reflexivity].
+  split; [intros E; try discriminate E;
+          first [ split; reflexivity
+                | split; [reflexivity|]; split; [intros E2; try discriminate E2; split; reflexivity|];
+                  first [left; reflexivity | right; reflexivity] ] |];
+  reflexivity.
 
 (** [restore_output_discipline] *)
-Theorem restore_output_discipline_thm : forall out_exists plan integ integ_ok,
-  let '(res, ops) := restore' out_exists plan integ integ_ok in
+Theorem restore_output_discipline_thm : forall out_exists plan integ integ_res cancelled,
+  let '(res, ops) := restore' out_exists plan integ integ_res cancelled in
   let fsf := fs_run (fs_init out_exists) ops in
   (* no operation broke the discipline: the output is created only by renaming a
      completely written, fsynced temp file onto a free name; it is never opened
@@ -141,30 +145,53 @@ Theorem restore_output_discipline_thm : forall out_exists plan integ integ_ok,
   f_bad fsf = false /\ ~ In OpenOutForWrite ops /\
   (* pre-existing output: error before anything is written *)
   (out_exists = true -> ops = [StatOut] /\ (exists e, res = RErr e) /\ f_out fsf = Some false) /\
-  (* otherwise: success leaves the image and no temp file; an error (including a
-     failed integrity check) leaves neither output, temp file nor -wal/-shm *)
+  (* otherwise: success leaves the image and no temp file; an error leaves neither
+     output, temp file nor -wal/-shm — whichever way the integrity check failed
+     (rows or statement error); only a cancelled context may leave the published image *)
   (out_exists = false ->
      match res with
      | ROk _ => f_out fsf = Some true /\ f_tmp fsf = TAbsent
-     | RErr _ => f_out fsf = None /\ f_tmp fsf = TAbsent /\ f_side fsf = false
+     | RErr _ => f_tmp fsf = TAbsent /\
+                 (cancelled = false -> f_out fsf = None /\ f_side fsf = false) /\
+                 (f_out fsf = None \/ f_out fsf = Some true)
      end) /\
   (* the same as the decidable observation test the harness applies to the real Restore *)
-  obs_ok out_exists (match res with ROk _ => 0%N | RErr _ => 1%N end)
+  obs_ok out_exists cancelled (match res with ROk _ => 0%N | RErr _ => 1%N end)
          (match f_out fsf with Some _ => true | None => false end)
          (match f_tmp fsf with TAbsent => false | _ => true end)
-         true
+         (match f_out fsf with Some true => true | _ => false end)
          (match f_out fsf with Some false => true | _ => false end)
          (f_side fsf) = true.
 Proof.
-  intros out_exists plan integ integ_ok. unfold restore.
-  destruct out_exists; [disc_tac|].
-  destruct plan as [fs|]; [|disc_tac].
-  destruct (negb (forallb (fun f => negb (p_size f <? ltx_header_size)) fs)); [disc_tac|].
-  destruct fs as [|f0 fs0]; [disc_tac|].
-  destruct (fetch_all' (f0 :: fs0)) as [bs|]; [|disc_tac].
-  destruct (negb (chain_ok hdr_min hdr_max bs)); [disc_tac|].
-  destruct (negb (forallb verified' bs)); [disc_tac|].
-  destruct (integ && negb (integ_ok (image bs))); disc_tac.
+  intros out_exists plan integ integ_res cancelled. unfold restore.
+  destruct cancelled.
+  all: destruct out_exists; [disc_tac|].
+  all: destruct plan as [fs|]; [|disc_tac].
+  all: destruct (negb (forallb (fun f => negb (p_size f <? ltx_header_size)) fs)); [disc_tac|].
+  all: destruct fs as [|f0 fs0]; [disc_tac|].
+  all: destruct (fetch_all' (f0 :: fs0)) as [bs|]; [|disc_tac].
+  all: destruct (negb (chain_ok hdr_min hdr_max bs)); [disc_tac|].
+  all: destruct (negb (forallb verified' bs)); [disc_tac|].
+  all: destruct (integ && negb (ires_ok (integ_res (image bs)))); disc_tac.
+Qed.
+(** every way the integrity check can fail — rows or statement error — removes
+    the published output together with -shm and -wal (context not cancelled) *)
+Theorem restore_integrity_failure_removes_output_thm : forall out_exists plan integ integ_res ops,
+  restore' out_exists plan integ integ_res false = (RErr R_INTEG, ops) ->
+  let fsf := fs_run (fs_init out_exists) ops in
+  In RemoveOut ops /\ In RemoveShm ops /\ In RemoveWal ops /\
+  f_out fsf = None /\ f_tmp fsf = TAbsent /\ f_side fsf = false.
+Proof.
+  intros out_exists plan integ integ_res ops. unfold restore.
+  destruct out_exists; [intros X; inversion X|].
+  destruct plan as [fs|]; [|intros X; inversion X].
+  destruct (negb (forallb (fun f => negb (p_size f <? ltx_header_size)) fs)); [intros X; inversion X|].
+  destruct fs as [|f0 fs0]; [intros X; inversion X|].
+  destruct (fetch_all' (f0 :: fs0)) as [bs|]; [|intros X; inversion X].
+  destruct (negb (chain_ok hdr_min hdr_max bs)); [intros X; inversion X|].
+  destruct (negb (forallb verified' bs)); [intros X; inversion X|].
+  destruct (integ && negb (ires_ok (integ_res (image bs)))); intros X; inversion X; subst ops.
+  simpl. intuition.
 Qed.
 End RestoreProofs.
 
@@ -202,12 +229,23 @@ Let storedx (bad : bool) (f : pinfo) : option (list nat) :=
 Let schedx (f : pinfo) : list outcome := if N.eqb (p_min f) 1 then [OpenErr; DataErr 30; DataEOF 20] else [].
 
 Example restore_example_ok :
-  fst (restore Hx bodyx cksx okx minx maxx imagex (storedx false) schedx 63 false (Some [f1; f2]) true (fun _ => true))
+  fst (restore Hx bodyx cksx okx minx maxx imagex (storedx false) schedx 63 false (Some [f1; f2]) true (fun _ => IOk) false)
   = ROk (mk 1 ++ mk 2).
 Proof. vm_compute. reflexivity. Qed.
 
 Example restore_example_detects :
-  restore Hx bodyx cksx okx minx maxx imagex (storedx true) schedx 63 false (Some [f1; f2]) true (fun _ => true)
+  restore Hx bodyx cksx okx minx maxx imagex (storedx true) schedx 63 false (Some [f1; f2]) true (fun _ => IOk) false
   = (RErr R_VERIFY, [StatOut; CreateTmp; WriteTmp true; CloseTmp; RemoveTmp]).
+Proof. vm_compute. reflexivity. Qed.
+
+(** both ways an integrity check can fail remove the published output; a
+    cancelled context leaves it *)
+Example restore_example_integrity :
+  map (fun r => snd (restore Hx bodyx cksx okx minx maxx imagex (storedx false) schedx 63 false (Some [f1; f2]) true
+                             (fun _ => fst r) (snd r)))
+      [(IRows, false); (IStmtErr, false); (IStmtErr, true)]
+  = [[StatOut; CreateTmp; WriteTmp true; FsyncTmp; CloseTmp; RenameTmpOut; FsyncDir; RemoveOut; RemoveShm; RemoveWal; RemoveTmp];
+     [StatOut; CreateTmp; WriteTmp true; FsyncTmp; CloseTmp; RenameTmpOut; FsyncDir; RemoveOut; RemoveShm; RemoveWal; RemoveTmp];
+     [StatOut; CreateTmp; WriteTmp true; FsyncTmp; CloseTmp; RenameTmpOut; FsyncDir; RemoveTmp]].
 Proof. vm_compute. reflexivity. Qed.
 End Example.
